@@ -425,4 +425,12 @@ example : ((pushRefs 1 exView (fun _ => none) exRemote (pushTargets 1 exView [0,
           ((pushRefs 1 exView (fun _ => none) exRemote (pushTargets 1 exView [0, 1])).view.remotes (1, 1)) = ⟨normal 1, true⟩ := by decide
 example : (pushRefs 1 exView (fun _ => none) exRemote (pushTargets 1 exView [0, 1])).unexported = [] := by decide
 
+-- the hypotheses of the theorems are satisfiable by this push
+example : ((pushTargets 1 exView [0, 1]).map (·.name)).Nodup := by decide
+example := push_cas 1 exRemote (fun _ => none) (pushTargets 1 exView [0, 1]) (by decide)
+example := rejected_leaves_state 1 exView (fun _ => none) exRemote (pushTargets 1 exView [0, 1]) (by decide)
+example := pushed_updates_record_total 1 exView (fun _ => none) exRemote (pushTargets 1 exView [0, 1]) (by decide)
+  ⟨0, some 1, some 2⟩ (by decide) (by decide)
+example := lease_is_recorded_position 1 exView [0, 1] ⟨1, some 1, some 2⟩ (by decide)
+
 end JjModel.C45
